@@ -19,7 +19,7 @@ def one_config(job):
     from nuspacesim.simulation.geometry.region_geometry import RegionGeomToO
     rng = np.random.default_rng(job["seed"])
     ev = []
-    for _ in range(job["nconf"]):
+    for ic in range(job["nconf"]):
         spec = {"mode": "Target",
                 "ra": float(rng.uniform(0, 2 * np.pi)), "dec": float(np.arcsin(rng.uniform(-1, 1))),
                 "obst": float(rng.choice([600.0, 3600.0, 86400.0, 5 * 86400.0, 12345.678])),
@@ -28,6 +28,10 @@ def one_config(job):
                 "det_lat": float(np.arcsin(rng.uniform(-1, 1))), "det_lon": float(rng.uniform(-np.pi, np.pi)),
                 "altitude": float(rng.choice([5.0, 33.0, 525.0, 1000.0, 36000.0])),
                 "limb": float(np.radians(rng.choice([0.5, 3.0, 7.0, 20.0])))}
+        if ic == 0 and job["seed"] % 3 == 0:
+            # windows that start on / span a UTC day ending in a leap second (86401 s long): the instants are t0 + k T / N in elapsed seconds
+            lp = [("2016-12-31T12:00:00", 86400.0), ("2016-12-31T23:59:30", 60.0), ("2015-06-30T18:00:00", 7 * 86400.0)][(job["seed"] // 3) % 3]
+            spec["date"], spec["obst"] = lp
         cfg = make_config(spec)
         sm = cfg.detector.sun_moon
         sm.sun_alt_cut = float(np.radians(rng.choice([-18.0, -12.0, -6.0, 0.0])))
